@@ -661,7 +661,6 @@ class SpectralDensity(DFunction, UnitsManaged):
             
             newpars.append(prms)
     
-        ind_of_zero, diff = self.axis.locate(0.0)
         atol = 1.0e-7
         twokbt = 2.0*kB_int*temp
 
@@ -670,6 +669,8 @@ class SpectralDensity(DFunction, UnitsManaged):
         #
         #if True:
         with energy_units("int"):
+            # zero frequency has to be located in internal units, too
+            ind_of_zero, diff = self.axis.locate(0.0)
             # if zero is sufficiently away from any point that is evaluated
             if numpy.abs(diff) > atol:
                 # do the evaluation directly
